@@ -44,6 +44,8 @@ type c18State struct {
 	used          map[string]bool // tables taken by monitors
 	n             int64
 	corrupt       int32 // notifications still to corrupt
+	echoSwallow   int32 // echo requests still to swallow
+	echoCut       int32 // echo requests still to answer by hanging up
 }
 
 const c18CallTimeout = 1500 * time.Millisecond
@@ -58,7 +60,11 @@ var c18Events = []string{
 	"connect", "disconnect", "close", "monitor-ok", "monitor-unknown-table", "monitor-empty", "monitor-option-error", "monitor-rejected", "monitor-unknown-method", "monitor-fallback",
 	"monitor-all", "monitor-second", "cancel-ok", "cancel-unknown", "transact-ok", "transact-invalid", "transact-error-result", "echo", "get-hit", "get-miss", "list", "where-list", "create-op", "where-update-op", "where-delete-op",
 	"update-endpoints-same", "update-endpoints-other", "cut", "notification", "bad-notification", "bad-notification-x2", "schema", "connected",
+	// a request that is never answered (the call ends when its context does) and a request on which the peer hangs up
+	"echo-noreply", "echo-cutreply", "transact-noreply", "transact-cutreply", "monitor-noreply", "monitor-cutreply",
 }
+
+const c18ShortTimeout = 300 * time.Millisecond // context of the calls that are never answered
 
 func (s *c18State) ctx() (context.Context, context.CancelFunc) {
 	return context.WithTimeout(context.Background(), c18CallTimeout)
@@ -125,7 +131,7 @@ func (s *c18State) run(ev string) string {
 			}
 		}
 		if ev == "monitor-ok" || ev == "monitor-second" {
-			for _, g := range [][]string{{"N1", "N2"}, {"R"}, {"PR"}} {
+			for _, g := range [][]string{{"N1", "N2"}, {"R"}} {
 				if !s.used[g[0]] && !s.used["*"] {
 					tables, s.used[g[0]] = g, true
 					break
@@ -202,6 +208,39 @@ func (s *c18State) run(ev string) string {
 		ctx, cancel := s.ctx()
 		defer cancel()
 		return errs(s.c.Echo(ctx))
+	case "echo-noreply", "echo-cutreply":
+		ctx, cancel := context.WithTimeout(context.Background(), c18ShortTimeout)
+		defer cancel()
+		if !s.c.Connected() {
+			return errs(s.c.Echo(ctx))
+		}
+		arm := &s.echoSwallow
+		if ev == "echo-cutreply" {
+			arm = &s.echoCut
+		}
+		atomic.StoreInt32(arm, 1)
+		defer atomic.StoreInt32(arm, 0)
+		return errs(s.c.Echo(ctx))
+	case "transact-noreply", "transact-cutreply":
+		// the proxy recognises the request by the row name
+		ctx, cancel := context.WithTimeout(context.Background(), c18ShortTimeout)
+		defer cancel()
+		marker := "swallow-this-request"
+		if ev == "transact-cutreply" {
+			marker = "hang-up-on-this-request"
+		}
+		_, err := s.c.Transact(ctx, sys.ToOvsOp(s.ref, rm.Op{Op: "insert", Table: "PR", Row: rm.Row{"name": str(fmt.Sprintf("%s-%d", marker, atomic.AddInt64(&s.n, 1)))}}))
+		return errs(err)
+	case "monitor-noreply", "monitor-cutreply":
+		// the proxy recognises the request by its table (PR, which no other monitor of a session names) and method
+		ctx, cancel := context.WithTimeout(context.Background(), c18ShortTimeout)
+		defer cancel()
+		m := mon("PR")
+		if ev == "monitor-cutreply" {
+			m.Method = ovsdb.ConditionalMonitorRPC
+		}
+		_, err := s.c.Monitor(ctx, m)
+		return errs(err)
 	case "get-hit", "get-miss":
 		ctx, cancel := s.ctx()
 		defer cancel()
@@ -362,6 +401,30 @@ func newC18State(reconnect bool) *c18State {
 			}
 		}
 		return nil
+	}
+	s.px.Decide = func(m e2e.Msg) e2e.Decision {
+		if m.Dir != "c2s" {
+			return e2e.Forward
+		}
+		raw := string(m.Raw)
+		switch {
+		case m.Method == "echo" && atomic.CompareAndSwapInt32(&s.echoSwallow, 1, 0):
+			return e2e.Swallow
+		case m.Method == "echo" && atomic.CompareAndSwapInt32(&s.echoCut, 1, 0):
+			return e2e.CutBefore
+		case m.Method == "transact" && strings.Contains(raw, "swallow-this-request"):
+			return e2e.Swallow
+		case m.Method == "transact" && strings.Contains(raw, "hang-up-on-this-request"):
+			return e2e.CutBefore
+		case strings.HasPrefix(m.Method, "monitor") && m.Method != "monitor_cancel" && strings.Contains(raw, `"PR":`):
+			// a monitor that names PR is only ever sent by the two events below; when a reconnecting client sends it again
+			// it is treated the same way (it was never registered: the first request failed)
+			if m.Method == "monitor_cond" {
+				return e2e.CutBefore
+			}
+			return e2e.Swallow
+		}
+		return e2e.Forward
 	}
 	if reconnect {
 		s.c = e2e.NewClient(dbs, s.px.Sock, client.WithReconnect(time.Second, backoff.NewConstantBackOff(time.Millisecond)))
@@ -809,11 +872,11 @@ func runC18(r *ev.Run) {
 	}
 	// every call parked before each of its blocking synchronisation operations (announced by the overlay build), any call meanwhile
 	if e2e.PointsAvailable() {
-		xs := []string{"monitor-second", "transact-ok", "notification", "bad-notification", "cut"}
+		xs := []string{"monitor-second", "transact-ok", "notification", "bad-notification", "cut", "echo-noreply", "transact-noreply"}
 		ys := []string{"disconnect", "close", "monitor-second", "bad-notification-x2", "notification", "get-hit", "transact-ok", "cut"}
 		pres := [][]string{{"connect", "monitor-ok"}}
 		if r.Tier == "thorough" {
-			xs = []string{"monitor-ok", "monitor-second", "monitor-fallback", "monitor-rejected", "monitor-unknown-method", "monitor-all", "transact-ok", "notification", "bad-notification", "cut", "disconnect", "close", "cancel-ok", "get-hit", "list", "echo", "update-endpoints-same", "update-endpoints-other"}
+			xs = []string{"monitor-ok", "monitor-second", "monitor-fallback", "monitor-rejected", "monitor-unknown-method", "monitor-all", "transact-ok", "notification", "bad-notification", "cut", "disconnect", "close", "cancel-ok", "get-hit", "list", "echo", "update-endpoints-same", "update-endpoints-other", "echo-noreply", "echo-cutreply", "transact-noreply", "transact-cutreply", "monitor-noreply", "monitor-cutreply"}
 			ys = nil
 			for _, y := range evs {
 				if y != "connect" {
